@@ -15,7 +15,7 @@ from vmon.util import derive_rng, shash
 
 LEVEL = "exploration"
 MANIFEST = {
-    "text": "For seeded random programs plus targeted shapes (nested fused groups, broadcast dependencies inside fused groups, partition-filtered sources and shuffles, tree reductions with small split_every, staged task shuffles, broadcast joins, every repartition kind, cumulative ops, overlapping partitions, graphs imported via persist / from_delayed), the real graph of every optimizer stage x shuffle method is materialised and audited: output keys (name, 0..npartitions-1) defined, every reference that looks like a key resolves in its scope (Fused inner graphs in their own scope), toposort succeeds, no Expr/FrameBase instance in any task, cloudpickle succeeds with the no-serialize guard on, layers re-collected expression by expression never define one key twice with different tasks; finally all keys are executed by our own scheduler.",
+    "text": "For seeded random programs plus targeted shapes (nested fused groups, broadcast dependencies inside fused groups, partition-filtered sources and shuffles, tree reductions with small split_every, staged task shuffles, broadcast joins, every repartition kind, cumulative ops, overlapping partitions, graphs imported via persist / from_delayed), the real graph of every optimizer stage x shuffle method is materialised and audited: output keys (name, 0..npartitions-1) defined, every reference that looks like a key resolves in its scope (Fused inner graphs in their own scope), toposort succeeds, no Expr/FrameBase instance in any task, cloudpickle succeeds with the no-serialize guard on, layers re-collected expression by expression never define one key twice with different tasks; finally all keys are executed by our own scheduler. The targeted collections of the plan audits are audited at every stage under both shuffle methods; a tuple labelled with the token of an expression of the plan counts as a key reference even if no task of that label exists.",
     "note": "'Looks like a key' = tuple whose head is the name of an expression of the plan or of a key in scope, followed by ints/strs; literal tuples in user kwargs cannot match because names carry 32-hex tokens. Sampled programs.",
     "technique": "runtime monitoring: structural auditor over the materialised task graphs of the real planner + full execution by an external scheduler",
     "design_ref": "DESIGN.md section 4, C09",
